@@ -12,7 +12,7 @@ EXTENDS Conductor, Props, Json, IOUtils
 
 Defs == JsonDeserialize(IOEnv.DEFS_FILE)        \* sequence of definitions (harness/explore.py:tla_def)
 
-CONSTANTS MaxPause, MaxCancel, MaxSteps,
+CONSTANTS MaxPause, MaxCancel, MaxSteps, MaxRerun,
           Own,          \* property ids whose clauses count, e.g. {"C01","C07"}
           KnownSigs     \* signatures of known findings (Deviations = AsCode): reported, descent stops, no violation
 
@@ -34,7 +34,7 @@ Obs(s, a, q, offers) ==
    infl |-> SetToSeq(InFlight(a)), dorm |-> SetToSeq({k \in DOMAIN a : a[k] \in DormantAct}),
    q |-> q, offers |-> offers]
 
-Call(op, t, r, i, st, res, acc) == [op |-> op, task |-> t, route |-> r, item |-> i, st |-> st, res |-> res, acc |-> acc]
+Call(op, t, r, i, st, res, acc) == [op |-> op, task |-> t, route |-> r, item |-> i, st |-> st, res |-> res, acc |-> acc, arg |-> << >>]
 StepRec(call, ret, obs) == [call |-> call, ret |-> ret, obs |-> obs, offers2 |-> obs.offers, pers2 |-> TRUE]
 
 (* A "world" W = [S, acts, accs, steps]: the provider's calls append to steps. *)
@@ -90,6 +90,13 @@ DoReport(d, W, t, r, i, st) ==
   IN [S |-> x.S, acts |-> a1, accs |-> c1,
       steps |-> Append(W.steps, StepRec(Call("report", t, r, i, st, res, accV), x.ret, Obs(x.S, a1, FALSE, << >>)))]
 
+DoRerun(d, W, reqs) ==
+  LET x == Rerun(d, W.S, reqs)
+      arg == [i \in 1..Len(reqs) |-> <<reqs[i][1], reqs[i][2], reqs[i][3]>>]
+  IN [W EXCEPT !.S = x.S,
+               !.steps = Append(@, StepRec([Call("rerun", "none", -1, -1, "none", <<2>>, <<2>>) EXCEPT !.arg = arg], x.ret,
+                                           Obs(x.S, W.acts, FALSE, << >>)))]
+
 DoReq(d, W, st) ==
   LET x == Req(d, W.S, st)
   IN [W EXCEPT !.S = x.S,
@@ -140,7 +147,7 @@ Init ==
         /\ rendered = (w3.S.wf \in Completed)
         /\ h = f.h /\ bad = f.bad
         /\ lastobs = Last(w3.steps).obs
-  /\ bud = [pause |-> MaxPause, resume |-> 0, cancel |-> MaxCancel]
+  /\ bud = [pause |-> MaxPause, resume |-> 0, cancel |-> MaxCancel, rerun |-> MaxRerun]
   /\ sched = << >>
 
 Advance(W, ch, b1) ==
@@ -165,7 +172,21 @@ Resume == /\ bud.resume > 0 /\ S.wf = "paused"
 Cancel == /\ bud.cancel > 0 /\ S.wf \in {"running", "pausing", "paused", "resuming"}
           /\ Advance(DoReq(D, W0(S, acts, accs), "canceling"), <<"req", "canceling">>, [bud EXCEPT !.cancel = @ - 1])
 
-Next == bad = {} /\ Len(sched) < MaxSteps /\ (Report \/ Pause \/ Resume \/ Cancel)
+(* a default rerun, or the rerun of one failed execution, once the workflow is completed and at rest *)
+FailedRecs == {<<S.seq[i].id, S.seq[i].route>> : i \in {j \in 1..Len(S.seq) :
+                  S.seq[j].st \in Abended /\ S.seq[j].id \in TaskNames(D) /\ S.ptr[Rid(S.seq[j].id, S.seq[j].route)] = j - 1}}
+RerunAct == /\ bud.rerun > 0 /\ S.wf \in Completed /\ InFlight(acts) = {}
+            /\ \E reqs \in {<< >>} \cup {<< <<x[1], x[2], 0>> >> : x \in FailedRecs} :
+                  /\ rendered' = FALSE
+                  /\ LET d  == D
+                         W1 == RenderIfDone(d, Settle(d, DoRerun(d, W0(S, acts, accs), reqs)), FALSE)
+                         f  == Fold(d, h, lastobs, W1.steps, 1, {})
+                     IN /\ S' = W1.S /\ acts' = W1.acts /\ accs' = W1.accs
+                        /\ h' = f.h /\ bad' = f.bad /\ lastobs' = Last(W1.steps).obs
+                        /\ bud' = [bud EXCEPT !.rerun = @ - 1]
+                        /\ sched' = Append(sched, <<"rerun", reqs>>) /\ di' = di
+
+Next == bad = {} /\ Len(sched) < MaxSteps /\ (Report \/ Pause \/ Resume \/ Cancel \/ RerunAct)
 
 Spec == Init /\ [][Next]_vars
 
@@ -181,6 +202,7 @@ NoViolation == \A c \in bad : c[1] = "KF"
 Leaf == ReportChoices(D, acts) = {} /\ ~(bud.resume > 0 /\ S.wf = "paused")
         /\ ~(bud.pause > 0 /\ S.wf \in {"running", "resuming"})
         /\ ~(bud.cancel > 0 /\ S.wf \in {"running", "pausing", "paused", "resuming"})
+        /\ ~(bud.rerun > 0 /\ S.wf \in Completed /\ InFlight(acts) = {})
 Digest == [wf |-> S.wf, ids |-> [i \in 1..Len(S.seq) |-> <<S.seq[i].id, S.seq[i].route, S.seq[i].st>>],
            nctx |-> Len(S.ctxs), nerr |-> Len(S.errs), out |-> S.out, routes |-> S.routes,
            staged |-> [i \in 1..Len(S.staged) |-> <<S.staged[i].id, S.staged[i].route, S.staged[i].ready>>]]
